@@ -1,6 +1,6 @@
 """A purpose-built mapped model for the object <-> DAO <-> SQL checks (C04, C05, C07).
 
-   VA (name, kind: enum, when: Optional[datetime], nums: List[int], weight: Optional[float], k: Optional[VK] custom typed)
+   VA (name, kind: enum, when: Optional[datetime], nums: List[int], weight: Optional[float], k: Optional[VK] custom typed, a, b: int, w: Optional[int])
       one: Optional[VA]   other: Optional[VC]   many: List[VC]
    VB(VA) (extra)
    VC (tag, j1, j2: JSON-serialisable objects in JSON columns)   back: Optional[VA]   m: Optional[VM]   peers: List[VA]
@@ -50,6 +50,9 @@ class VA:
     nums: List[int] = field(default_factory=list)
     weight: Optional[float] = None
     k: Optional[VK] = None
+    a: int = 0
+    b: int = 0
+    w: Optional[int] = None
     one: Optional[VA] = None
     other: Optional[VC] = None
     many: List[VC] = field(default_factory=list)
@@ -63,6 +66,7 @@ class VB(VA):
 @dataclass(eq=False)
 class VC:
     tag: int = 0
+    tag2: int = 0
     j1: Optional[jsonmodel.A] = None       # polymorphic JSON column
     j2: Optional[jsonmodel2.A] = None      # a serialisable class of the same short name from another module
     back: Optional[VA] = None
